@@ -64,7 +64,7 @@ def main():
     if not parts:
         parts.append({"profile": "none", "runs": 0, "steps_total": 0, "wall_s": 0.0, "nontrivial_set_hash": "", "nontrivial_distinct": 0,
                       "violations": 1, "samples": [], "inapplicable_steps": 0, "distinct_positions": 0, "distinct_positions_capped": False,
-                      "distinct_op_trigrams": 0, "longest_game_plies": 0, "batch_digest": ""})
+                      "distinct_op_trigrams": 0, "max_accepted_pushes_in_one_run": 0, "batch_digest": ""})
 
     def add_maps(key):
         out = {}
@@ -111,7 +111,7 @@ def main():
         "distinct_positions": max(p["distinct_positions"] for p in parts),
         "distinct_positions_capped": any(p["distinct_positions_capped"] for p in parts),
         "distinct_op_trigrams": max(p["distinct_op_trigrams"] for p in parts),
-        "longest_game_plies": max(p["longest_game_plies"] for p in parts),
+        "max_accepted_pushes_in_one_run": max(p["longest_game_plies"] for p in parts),
         "profiles_run": [p["profile"] for p in parts],
         "batch_digests": {p["profile"]: p["batch_digest"] for p in parts},
         "components": {
